@@ -234,6 +234,10 @@ let run_case k (cs : case) tapes =
                let tape = List.map parse_event evs in
                let wcur = if use_weather && !weathers <> [] then
                    { !w with P.w_weather = Some (List.nth !weathers (s mod List.length !weathers)) } else !w in
+               (match List.assoc_opt "clearafter" cs.kv with
+                | Some [ka; sa] when cs.entry = "pools" && int_of_string ka = s ->
+                  treats := P.clear_after_step !treats (z_of_int (int_of_string sa))
+                | _ -> ());
                let inp = { P.in_temperatures = !temps; in_survival = !survs; in_totpop = !totpop;
                            in_movements = !moves; in_treatments = !treats } in
                let (res, trace) =
